@@ -84,8 +84,9 @@ static unsigned int read_int_from_array(uint8_t *array)
 
 static int reassemble(struct websocket *s, uint8_t *msg, size_t length)
 {
-	if (length != 0) {
-		z_stream *strm = &s->extension_compression.strm_decomp;
+	z_stream *strm = &s->extension_compression.strm_decomp;
+	/* An empty fragment adds nothing, but the first one still has to set up the buffer the last one reads. */
+	if ((length != 0) || (strm->avail_in == 0)) {
 		if (strm->avail_in == 0) {
 			unsigned int memory = length * 3 + 4;
 			strm->next_in = malloc(memory);
